@@ -1,11 +1,11 @@
 #!/bin/bash
-# tools/sweep.sh [tier] [seeds...]  : run every READY check on several seeds, print exit codes
+# tools/sweep.sh [tier] [seeds...]  : run every READY check (or $SWEEP_PROPS) on several seeds, print exit codes
 cd "$(dirname "$0")/.."
 tier=${1:-quick}; shift
 seeds=${@:-0 1 2 3 4}
 export VERIF_EVIDENCE_DIR=${VERIF_EVIDENCE_DIR:-$(mktemp -d)}
 export VERIF_REPLAY_DIR=${VERIF_REPLAY_DIR:-$VERIF_EVIDENCE_DIR/replays}
-for p in $(cat verif/props/READY); do
+for p in ${SWEEP_PROPS:-$(cat verif/props/READY)}; do
   for s in $seeds; do
     start=$(date +%s)
     out=$(VERIF_SEED=$s ./vcheck $p --tier $tier 2>&1); code=$?
